@@ -66,6 +66,8 @@ enum Filt {
     EvenSum,
     LeftGe(i64),
     RightGe(i64),
+    /// a filter without any column: constant TRUE / FALSE / NULL (`-1 >= CAST(NULL AS BIGINT)`)
+    Const(Option<bool>),
 }
 impl Filt {
     fn json(&self) -> String {
@@ -75,6 +77,9 @@ impl Filt {
             Filt::EvenSum => "[\"even\",0]".into(),
             Filt::LeftGe(c) => format!("[\"lge\",{c}]"),
             Filt::RightGe(c) => format!("[\"rge\",{c}]"),
+            Filt::Const(Some(true)) => "[\"const\",1]".into(),
+            Filt::Const(Some(false)) => "[\"const\",0]".into(),
+            Filt::Const(None) => "[\"const\",-1]".into(),
         }
     }
     /// residual filter, SQL semantics: a NULL result does not pass
@@ -85,6 +90,7 @@ impl Filt {
             Filt::EvenSum => matches!((l.v, r.v), (Some(a), Some(b)) if (a + b) % 2 == 0),
             Filt::LeftGe(c) => matches!(l.v, Some(a) if a >= *c),
             Filt::RightGe(c) => matches!(r.v, Some(b) if b >= *c),
+            Filt::Const(b) => *b == Some(true),
         }
     }
 }
@@ -147,6 +153,7 @@ struct Case {
     nk: usize,
     filt: Filt,
     na: bool, // null-aware anti join (NOT IN)
+    fmin: bool, // the JoinFilter lists only the columns its expression uses (one-sided filters: a single column)
     bs: usize,
     so: Vec<(bool, bool)>,    // per key column (descending, nulls_first) -- SMJ
     l: Vec<Vec<Vec<SRow>>>,   // partitions -> batches -> rows
@@ -259,11 +266,29 @@ fn filt_expr(f: Filt, lv: Arc<dyn PhysicalExpr>, rv: Arc<dyn PhysicalExpr>) -> O
         Filt::EvenSum => Some(bin(bin(bin(lv, Operator::Plus, rv), Operator::Modulo, lit(2)), Operator::Eq, lit(0))),
         Filt::LeftGe(c) => Some(bin(lv, Operator::GtEq, lit(c))),
         Filt::RightGe(c) => Some(bin(rv, Operator::GtEq, lit(c))),
+        Filt::Const(Some(true)) => Some(bin(lit(1), Operator::GtEq, lit(0))),
+        Filt::Const(Some(false)) => Some(bin(lit(-1), Operator::GtEq, lit(0))),
+        Filt::Const(None) => Some(bin(lit(-1), Operator::GtEq, Arc::new(Literal::new(ScalarValue::Int64(None))))),
     }
 }
 /// residual filter over the intermediate schema (lv, rv)
-fn join_filter(f: Filt) -> Option<JoinFilter> {
+fn join_filter(f: Filt, fmin: bool) -> Option<JoinFilter> {
     let e = filt_expr(f, col("lv", 0), col("rv", 1))?;
+    if let Filt::Const(_) = f {
+        return Some(JoinFilter::new(e, vec![], Arc::new(Schema::empty())));
+    }
+    if fmin {
+        if let Filt::LeftGe(_) = f {
+            let e = filt_expr(f, col("lv", 0), col("lv", 0))?;
+            let schema = Arc::new(Schema::new(vec![Field::new("lv", DataType::Int64, true)]));
+            return Some(JoinFilter::new(e, vec![ColumnIndex { index: 3, side: JoinSide::Left }], schema));
+        }
+        if let Filt::RightGe(_) = f {
+            let e = filt_expr(f, col("rv", 0), col("rv", 0))?;
+            let schema = Arc::new(Schema::new(vec![Field::new("rv", DataType::Int64, true)]));
+            return Some(JoinFilter::new(e, vec![ColumnIndex { index: 3, side: JoinSide::Right }], schema));
+        }
+    }
     let schema = Arc::new(Schema::new(vec![
         Field::new("lv", DataType::Int64, true),
         Field::new("rv", DataType::Int64, true),
@@ -318,7 +343,7 @@ fn build_plan(c: &Case) -> Result<Arc<dyn ExecutionPlan>, String> {
     let e = |x: datafusion_common::DataFusionError| x.to_string();
     Ok(match c.op {
         Op::HjCollect => Arc::new(
-            HashJoinExec::try_new(left, right, on, join_filter(c.filt), &c.jt, None, PartitionMode::CollectLeft, ne, c.na)
+            HashJoinExec::try_new(left, right, on, join_filter(c.filt, c.fmin), &c.jt, None, PartitionMode::CollectLeft, ne, c.na)
                 .map_err(e)?,
         ),
         Op::HjPart => {
@@ -327,14 +352,14 @@ fn build_plan(c: &Case) -> Result<Arc<dyn ExecutionPlan>, String> {
             let left = Arc::new(RepartitionExec::try_new(left, Partitioning::Hash(le, np)).map_err(e)?);
             let right = Arc::new(RepartitionExec::try_new(right, Partitioning::Hash(re, np)).map_err(e)?);
             Arc::new(
-                HashJoinExec::try_new(left, right, on, join_filter(c.filt), &c.jt, None, PartitionMode::Partitioned, ne, c.na)
+                HashJoinExec::try_new(left, right, on, join_filter(c.filt, c.fmin), &c.jt, None, PartitionMode::Partitioned, ne, c.na)
                     .map_err(e)?,
             )
         }
         Op::Smj => {
             let so: Vec<SortOptions> =
                 c.so.iter().map(|(d, nf)| SortOptions { descending: *d, nulls_first: *nf }).collect();
-            Arc::new(SortMergeJoinExec::try_new(left, right, on, join_filter(c.filt), c.jt, so, ne).map_err(e)?)
+            Arc::new(SortMergeJoinExec::try_new(left, right, on, join_filter(c.filt, c.fmin), c.jt, so, ne).map_err(e)?)
         }
         Op::Nlj => Arc::new(NestedLoopJoinExec::try_new(left, right, nlj_filter(c), &c.jt, None).map_err(e)?),
         Op::Shj => Arc::new(
@@ -342,7 +367,7 @@ fn build_plan(c: &Case) -> Result<Arc<dyn ExecutionPlan>, String> {
                 left,
                 right,
                 on,
-                join_filter(c.filt),
+                join_filter(c.filt, c.fmin),
                 &c.jt,
                 ne,
                 None,
@@ -452,7 +477,7 @@ fn j_parts(p: &[Vec<Vec<SRow>>]) -> String {
 
 fn emit(rt: &tokio::runtime::Runtime, c: &Case) {
     let head = format!(
-        "{{\"id\":{},\"stream\":{},\"op\":{},\"jt\":{},\"nulleq\":{},\"nk\":{},\"filt\":{},\"na\":{},\"bs\":{},\"so\":[{}],\"l\":{},\"r\":{}",
+        "{{\"id\":{},\"stream\":{},\"op\":{},\"jt\":{},\"nulleq\":{},\"nk\":{},\"filt\":{},\"na\":{},\"fmin\":{},\"bs\":{},\"so\":[{}],\"l\":{},\"r\":{}",
         c.id,
         json_str(c.stream),
         json_str(c.op.name()),
@@ -461,6 +486,7 @@ fn emit(rt: &tokio::runtime::Runtime, c: &Case) {
         c.nk,
         c.filt.json(),
         c.na,
+        c.fmin,
         c.bs,
         c.so.iter().map(|(d, n)| format!("[{d},{n}]")).collect::<Vec<_>>().join(","),
         j_parts(&c.l),
@@ -601,15 +627,17 @@ fn part_by_key(rows: &[SRow], np: usize) -> Vec<Vec<SRow>> {
 fn gen_case(rng: &mut Rng, id: u64, op: Op, jt: JoinType) -> Case {
     let shape = rng.below(4);
     let mut l = gen_side(rng, 100, shape);
-    let mut r = gen_side(rng, 200, if rng.chance(3, 4) { shape } else { rng.below(4) });
+    let rshape = if rng.chance(3, 4) { shape } else { rng.below(4) };
+    let mut r = gen_side(rng, 200, rshape);
     let nulleq = rng.chance(1, 3);
     let mut nk = if rng.chance(1, 4) { 2 } else { 1 };
-    let mut filt = match rng.below(8) {
+    let mut filt = match rng.below(10) {
         0..=2 => Filt::None,
         3 | 4 => Filt::Lt,
         5 => Filt::EvenSum,
         6 => Filt::LeftGe(rng.range(1, 4)),
-        _ => Filt::RightGe(rng.range(1, 4)),
+        7 => Filt::RightGe(rng.range(1, 4)),
+        _ => Filt::Const(*rng.pick(&[None, None, Some(false), Some(true)])),
     };
     let bs = *rng.pick(&[1usize, 2, 3, 8192, 8192]);
     let so: Vec<(bool, bool)> = (0..2).map(|_| (rng.chance(1, 3), rng.chance(1, 2))).collect();
@@ -690,7 +718,8 @@ fn gen_case(rng: &mut Rng, id: u64, op: Op, jt: JoinType) -> Case {
             rp = parts.into_iter().map(|p| split_batches(rng, p)).collect();
         }
     }
-    Case { id, op, jt, nulleq: nulleq && !na, nk, filt, na, bs, so: so[..nk.max(1).min(2)].to_vec(), l: lp, r: rp, stream }
+    let fmin = rng.chance(1, 2);
+    Case { id, op, jt, nulleq: nulleq && !na, nk, filt, na, fmin, bs, so: so[..nk.max(1).min(2)].to_vec(), l: lp, r: rp, stream }
 }
 
 fn sr(id: i64, k1: Option<i64>, k2: Option<i64>, v: Option<i64>) -> SRow {
@@ -699,8 +728,58 @@ fn sr(id: i64, k1: Option<i64>, k2: Option<i64>, v: Option<i64>) -> SRow {
 
 /// fixed witness inputs of the listed findings; they run first on every run
 fn witnesses() -> Vec<Case> {
-    let _ = sr;
-    vec![]
+    vec![
+        // KF-C05-1: SymmetricHashJoinExec, NullEqualsNull: the NULL-key row of the second batch of each side is
+        // inserted under the stale hash left in hashes_buffer by the first batch and is never found by a NULL probe
+        Case {
+            id: 1_000_001,
+            op: Op::Shj,
+            jt: JoinType::Inner,
+            nulleq: true,
+            nk: 1,
+            filt: Filt::None,
+            na: false,
+            fmin: false,
+            bs: 8192,
+            so: vec![(false, false)],
+            l: vec![vec![vec![sr(100, Some(1), Some(0), Some(1))], vec![sr(101, None, Some(0), Some(2))]]],
+            r: vec![vec![vec![sr(200, Some(1), Some(0), Some(3))], vec![sr(201, None, Some(0), Some(4))]]],
+            stream: "witness:KF-C05-1",
+        },
+        // KF-C05-2: SortMergeJoinExec, semi/anti/mark join with a join filter that uses no column: error as soon as
+        // one pair of rows has equal keys
+        Case {
+            id: 1_000_002,
+            op: Op::Smj,
+            jt: JoinType::LeftSemi,
+            nulleq: false,
+            nk: 1,
+            filt: Filt::Const(Some(true)),
+            na: false,
+            fmin: false,
+            bs: 8192,
+            so: vec![(false, false)],
+            l: vec![vec![vec![sr(100, Some(1), Some(0), Some(1))]]],
+            r: vec![vec![vec![sr(200, Some(1), Some(0), Some(3))]]],
+            stream: "witness:KF-C05-2",
+        },
+        // KF-C05-3: SortMergeJoinExec, inner/outer join: a join filter that uses no column is ignored (taken as TRUE)
+        Case {
+            id: 1_000_003,
+            op: Op::Smj,
+            jt: JoinType::Full,
+            nulleq: false,
+            nk: 1,
+            filt: Filt::Const(None),
+            na: false,
+            fmin: false,
+            bs: 8192,
+            so: vec![(false, false)],
+            l: vec![vec![vec![sr(100, Some(1), Some(0), Some(1))]]],
+            r: vec![vec![vec![sr(200, Some(1), Some(0), Some(3))]]],
+            stream: "witness:KF-C05-3",
+        },
+    ]
 }
 
 fn main() {
